@@ -94,8 +94,8 @@ def check_spec(acc, spec, tier):
                 acc.c["propagator_executions"] += o.stats.get("PROPAGATOR_FILTER_NB", 0)
                 acc.mx("max_restarts", len(mon.events))
                 key0 = f"{SC.con_types(spec)}:{layout(spec)}"
-                if o.abort in ("index",):
-                    acc.c["aborted_index"] += 1
+                if o.abort in ("index", "skipped"):
+                    acc.c["aborted_" + o.abort] += 1
                     continue
                 if o.abort:
                     acc.violation(f"{key0}:no-termination-or-crash:{o.abort.split(':')[0]}",
